@@ -89,7 +89,18 @@ def check(hyps: list, goal, timeout_ms: int, use_lemmas: bool = True, seed: int 
     return r, s, dt
 
 
+def _plain_symbols(smt2: str) -> str:
+    """cvc5 1.0.3 mis-resolves |quoted| datatype constructors in testers (`(_ is |noneOpt<Seq<Int>>|)`): replace every
+    quoted symbol by a plain one (injective on the names this engine produces)."""
+    import re
+
+    def san(m):
+        return "q_" + re.sub(r"[^A-Za-z0-9_!.]", lambda c: f"_{ord(c.group(0)):x}_", m.group(1))
+    return re.sub(r"\|([^|]*)\|", san, smt2)
+
+
 def cvc5_check(smt2: str, timeout_s: int) -> str:
+    smt2 = _plain_symbols(smt2)
     with tempfile.NamedTemporaryFile("w", suffix=".smt2", delete=False) as f:
         f.write("(set-logic ALL)\n" + smt2 + "\n(check-sat)\n")
         path = f.name
